@@ -297,3 +297,65 @@ func (c *Ctx) Finish() int {
 		c.ID, c.Tier, c.Seed, c.evaluations, len(c.distinct), unknown, len(knownHits), len(c.inconclusive), time.Since(c.start).Seconds(), exit)
 	return exit
 }
+
+// Watchdog reports a progress violation if a watched section runs longer than
+// its limit: the property itself promises an answer, so expiry is a violation
+// when `progressIsProperty` is set, otherwise the run is inconclusive. It
+// prints the contract line itself and exits, since a hung call cannot be
+// cancelled from inside the process.
+type Watchdog struct {
+	c     *Ctx
+	mu    sync.Mutex
+	slots map[int]*wdSlot
+	next  int
+}
+
+type wdSlot struct {
+	deadline time.Time
+	desc     any
+	sig      string
+	progress bool
+}
+
+// NewWatchdog starts the watchdog goroutine.
+func (c *Ctx) NewWatchdog() *Watchdog {
+	w := &Watchdog{c: c, slots: map[int]*wdSlot{}}
+	go func() {
+		for {
+			time.Sleep(500 * time.Millisecond)
+			w.mu.Lock()
+			for _, s := range w.slots {
+				if time.Now().After(s.deadline) {
+					buf := make([]byte, 1<<20)
+					n := runtime.Stack(buf, true)
+					_ = os.MkdirAll(filepath.Join(VerifDir(), "replays"), 0o755)
+					dump := filepath.Join(VerifDir(), "replays", fmt.Sprintf("%s-seed%d-watchdog-goroutines.txt", c.ID, c.Seed))
+					_ = os.WriteFile(dump, buf[:n], 0o644)
+					if s.progress {
+						c.Violate(s.sig, "no answer within the watchdog limit (goroutine dump: "+dump+")", s.desc)
+						os.Exit(c.Finish())
+					}
+					c.Inconclusive(fmt.Sprintf("watchdog expired in %s (goroutine dump %s)", s.sig, dump))
+					c.CheckError("watchdog expired on a wait that is not a progress obligation: " + s.sig)
+					os.Exit(c.Finish())
+				}
+			}
+			w.mu.Unlock()
+		}
+	}()
+	return w
+}
+
+// Watch opens a watched section; call the returned func when it completes.
+func (w *Watchdog) Watch(sig string, desc any, limit time.Duration, progressIsProperty bool) func() {
+	w.mu.Lock()
+	id := w.next
+	w.next++
+	w.slots[id] = &wdSlot{deadline: time.Now().Add(limit), desc: desc, sig: sig, progress: progressIsProperty}
+	w.mu.Unlock()
+	return func() {
+		w.mu.Lock()
+		delete(w.slots, id)
+		w.mu.Unlock()
+	}
+}
